@@ -11,6 +11,13 @@ check("C08", "exploration", "E", "exhaustive enumeration of every per-directory 
       "All permutations of every directory listing of every tree up to the node bound, all orders of the plugin lists and all ordered selections of 2-3 roots are executed; the oracle is another run of the implementation (canonical order / single-root scans), so no expected value is hand-written.",
       "Trusted: memfs returns entries exactly in the parameterised order; Go map iteration order is represented by its consequence (plugin list order). Outside the bound: trees > 5/6 nodes, > 3 roots.", "DESIGN §5 C08")
 
+check("C04", "exploration", "E", "bounded exhaustive enumeration of layer sequences x entry orders x name styles x histories x requirers on the real FromV1Image, against an independent OCI overlay model (+ variant models to attribute open findings)",
+      "Every well-formed 1- and 2-layer image (thorough: 3-layer) over the path universe is loaded by the real code and every view is queried on every path and by listing and walk, then compared with a 60-line overlay model; 5 genuine defects found this way were fixed, 3 are open findings matched only when the implementation agrees exactly with the corresponding variant model.",
+      "Trusted: imgkit.Model.Apply (OCI change-set rules), the light v1.Image. Outside the bound: >2 entries per layer in quick, >3 layers, hard links, path depth >3, symlinked directory components (C17), directory permission bits.", "DESIGN §5 C04")
+check("C09", "fault_enumeration", "F", "deviation-bounded fault enumeration: every single fault and every pair of faults over all numbered FS operation sites, differential against the fault-free scan",
+      "For every small tree/config the fault-free run fixes the list of operation sites; every site x error kind and every pair is injected and the faulted scan compared with the fault-free one (containment, status rules, fatal-on-request).",
+      "Trusted: memfs site numbering; the oracle's mapping from a reached site to the owning extractor. Outside the bound: >2 simultaneous faults, trees >5/6 nodes, gitignore enabled.", "DESIGN §5 C09")
+
 ALL = ["C%02d" % i for i in range(1, 21)]
 for p in ALL:
     if p not in CHECKS:
